@@ -11,6 +11,9 @@ import GcArena.Model.DynRoots
     stash <s> <ptr> <h>        h = s.stash(ptr)                                 -> <index>
     clone <h> <h2>             h2 = h.clone()                                   -> ok
     drop <h>                   drop(h)                                          -> ok
+                               (`h.clone_from(&h2)` has no line of its own: `Clone::clone_from` is
+                               `*h = h2.clone()`, i.e. for this protocol exactly `drop <h>` followed by
+                               `clone <h2> <h>` — the harness op `clonefrom h h2` emits these two lines)
     fetch <s> <h>              s.fetch(&h)                                      -> <ptr> | panic:mismatched root set
     tryfetch <s> <h>           s.try_fetch(&h)                                  -> <ptr> | mismatch
     contains <s> <h>           s.contains(&h)                                   -> true | false
